@@ -437,6 +437,48 @@ func ruleCacheUnits(c *Ctx) {
 			})
 			return found
 		}
+		// units: an absolute index = a position in this level + trustedParentCount. Write the stored value as a linear
+		// form over {ValidatorIndex parameters (absolute), len(idx2pub) (position), trustedParentCount (offset)} and
+		// require one unit of position and one unit of offset.
+		if p, ok := exprPoly(info, val, singleDefs(info, fd.Body), nil, 0); ok && recv != nil {
+			var a, r, t int64
+			linear := true
+			for k, cf := range p {
+				switch {
+				case k == "":
+				case k == "len("+recv.Name()+".idx2pub)":
+					r += cf
+				case k == recv.Name()+".trustedParentCount":
+					t += cf
+				default:
+					isParam := false
+					if fd.Type.Params != nil {
+						for _, f := range fd.Type.Params.List {
+							for _, n := range f.Names {
+								if n.Name == k {
+									if nt := namedOf(info.TypeOf(f.Type)); nt != nil && nt.Obj().Name() == "ValidatorIndex" {
+										isParam = true
+									}
+								}
+							}
+						}
+					}
+					if isParam {
+						a += cf
+					} else {
+						linear = false
+					}
+				}
+			}
+			if linear && (a != 0 || r != 0 || t != 0) {
+				if a+r == 1 && a+t == 1 {
+					c.ok(key, pos, "absolute validator index (units: position %+d, offset %+d)", a+r, a+t)
+				} else {
+					c.bad(key, pos, "pub2idx receives %s, which is not an absolute validator index (in units of position/offset it is %+d/%+d, an absolute index is +1/+1): on a cache forked at index k > 0 pubkey->index answers are off by k", types.ExprString(val), a+r, a+t)
+				}
+				return
+			}
+		}
 		if derivesLen(val, 0) && !addsTrusted(val, 0) {
 			c.bad(key, pos, "pub2idx receives %s, a position in this level's idx2pub (relative to trustedParentCount), where the absolute validator index is required: on a cache forked at index k > 0 every pubkey->index answer is short by k", types.ExprString(val))
 		} else {
